@@ -1,11 +1,21 @@
 """C01 — mutual exclusion and Count capacity bound per key."""
-import vlib
 from props import engine_common
 
-THEOREMS = []
-FINISH = {"level": "proof", "assumptions": []}
+THEOREMS = ["Slock.C01.reachable_inv", "Slock.C01.doLock_sound", "Slock.C01.admission_bound",
+            "Slock.C01.C01_admission_direct_partial", "Slock.C01.C01_admission_wake_partial",
+            "Slock.C01.ffff_admits_unbounded", "Slock.Engine.consts_match"]
+FINISH = {"level": "proof", "assumptions": [
+    "M-ENGINE is hand-written; it is tied to server/db.go + server/lock.go by the E-seq differential run (real LockDB, virtual clock) and by the regenerated constants (consts_match)",
+    "granularity: one model step = one shard-mutex critical section; Go scheduling below that is not modelled",
+    "value frames, require-ack, millisecond timers are outside stage 1 of the model (generator does not emit them)"]}
 
 
 def run(ctx):
     ctx.extract()
-    engine_common.run_engine(ctx, ["C01:"])
+    ctx.lake_build(["Slock.Properties.C01"])
+    ctx.audit("Slock.Properties.C01", THEOREMS)
+    if ctx.tier == "thorough":
+        ctx.leanchecker("Slock.Properties.C01")
+    engine_common.run_engine(ctx, ["C01:"], n_quick=600, n_thorough=40000)
+    ctx.cov["rule"] = ("seeded operation sequences (LOCK/UNLOCK with flags from the core subset, ticks, role flips, snapshots, adaptive drain) on 1–2 keys, 2–4 LockIds, "
+                       "3 connections; three profiles (mixed, capacity-heavy, queue-heavy); distinct_nontrivial = distinct sequences containing at least one grant")
